@@ -8,3 +8,21 @@ pub(crate) fn fake_guard<'a>(zalsa: &'a Zalsa, zalsa_local: &'a ZalsaLocal, ingr
     ClaimGuard { key_index, zalsa, shard, mode: ReleaseMode::Default, zalsa_local }
 }
 
+
+// ---- stand-ins stating the claim table's contract for the modular harnesses of `function.verif.rs` ----
+pub(crate) static mut CLAIMS: u32 = 0;
+pub(crate) static mut RELEASES: u32 = 0;
+/// The key is free: the claim is granted for exactly the requested key.
+pub(crate) fn stub_try_claim<'me>(this: &'me SyncTable, zalsa: &'me Zalsa, zalsa_local: &'me ZalsaLocal, key_index: Id, _reentrant: Reentrancy) -> ClaimResult<'me> {
+    // SAFETY: single-threaded harness
+    unsafe { CLAIMS += 1 };
+    ClaimResult::Claimed(fake_guard(zalsa, zalsa_local, this.ingredient, key_index))
+}
+impl<'me> ClaimGuard<'me> {
+    /// Stand-in for `drop_impl`: counts the release; nobody waits in a sequential harness.
+    pub(crate) fn verif_release(&mut self) -> bool {
+        // SAFETY: single-threaded harness
+        unsafe { RELEASES += 1 };
+        false
+    }
+}
